@@ -138,7 +138,7 @@ impl World for WorldI {
                 },
                 2 => IOp::Register { tok: if rng.chance(4, 5) { rng.below(4) as u8 } else { rng.below(8) as u8 }, abort },
                 3 => IOp::Send {
-                    caller: rng.below(4) as u8,
+                    caller: if rng.chance(1, 20) { 200 } else { rng.below(4) as u8 },
                     tok: if rng.chance(9, 10) { TokRef::Registered(rng.below(6) as u8) } else { TokRef::Unknown(rng.below(3) as u8) },
                     chain: if !cfg.initial_trusted.is_empty() && rng.chance(2, 3) { *rng.pick(&cfg.initial_trusted) } else { rng.below(CHAINS.len() as u64) as u8 },
                     dst: rng.below(4) as u8,
@@ -151,7 +151,10 @@ impl World for WorldI {
                 },
                 4 => {
                     let known: Vec<(u8, u8)> = ops.iter().filter_map(|o| if let IOp::Deploy { caller, salt, auth: AuthVar::Right, .. } = o { Some((*caller, *salt)) } else { None }).collect();
-                    let (c, s) = if !known.is_empty() && rng.chance(3, 4) { *rng.pick(&known) } else { (rng.below(4) as u8, rng.below(3) as u8) };
+                    let (mut c, s) = if !known.is_empty() && rng.chance(3, 4) { *rng.pick(&known) } else { (rng.below(4) as u8, rng.below(3) as u8) };
+                    if rng.chance(1, 5) {
+                        c = (c + 1 + rng.below(3) as u8) % 4; // somebody else re-uses the salt
+                    }
                     IOp::DeployRemote {
                     caller: c,
                     salt: s,
